@@ -114,15 +114,31 @@ func (x *executor) lookup(m *machine, fr *frame, in *ssa.Lookup) {
 	}
 }
 
-// range over a map: each Next yields either "done" or some key that is present, with its value. Which key, how many
-// iterations and that every key is visited once are NOT modelled (loops over maps get partial-correctness invariants only).
+// range over a map. Two ghost arrays per Range instruction live in the state: the presence array of the map when
+// the Range was executed ("rangehas:<id>") and the set of keys produced so far ("rangevis:<id>", havocked with the
+// loop and constrained by invariants through visited(k)). Each Next yields either "done" or a key that is present
+// and was not produced before; "done" means that - provided the presence array of the map is what it was when the
+// iteration started - every present key has been produced. Termination of the iteration is not modelled, nor is a
+// key that is deleted and inserted again during its own iteration.
+func rangeID(in *ssa.Range) string {
+	return in.Parent().String() + ":" + in.Name()
+}
+
 func (x *executor) rangeInstr(m *machine, fr *frame, in *ssa.Range) {
-	if _, ok := in.X.Type().Underlying().(*types.Map); !ok {
+	mt, ok := in.X.Type().Underlying().(*types.Map)
+	if !ok {
 		panic(unsupported("range over a string"))
 	}
+	c := x.c
 	v := x.val(m, fr, in.X)
-	fr.env[in] = Val{t: x.c.termOf(v), typ: in.X.Type()}
-	x.note("range over a map yields an arbitrary present key per iteration; completeness and termination of the iteration are not modelled")
+	ref := c.termOf(v)
+	fr.env[in] = Val{t: ref, typ: in.X.Type()}
+	has, _ := c.mapHeaps(m.st, in.X.Type())
+	ks := c.sortOf(mt.Key())
+	id := rangeID(in)
+	m.st.heaps["rangehas:"+id] = c.name(m.st, "rangehas", mkSelect(has, ref))
+	m.st.heaps["rangevis:"+id] = app(fmt.Sprintf("(as const %s)", arraySort(ks, "Bool")), arraySort(ks, "Bool"), tFalse)
+	x.note("range over a map: every present key is produced once provided the map's key set is unchanged by the loop; termination of the iteration is not modelled")
 }
 
 func (x *executor) nextInstr(m *machine, fr *frame, in *ssa.Next) {
@@ -138,8 +154,56 @@ func (x *executor) nextInstr(m *machine, fr *frame, in *ssa.Next) {
 	m.st.assume(x.valueWF(k, mt.Key()))
 	val, has := x.mapGet(m.st, Val{t: mv.t, typ: rng.X.Type()}, k)
 	m.st.assume(mkImp(ok, has))
+	id := rangeID(rng)
+	if vis, found := m.st.heaps["rangevis:"+id]; found {
+		has0 := m.st.heaps["rangehas:"+id]
+		hasH, _ := c.mapHeaps(m.st, rng.X.Type())
+		hasNow := mkSelect(hasH, mv.t)
+		m.st.assume(mkImp(ok, mkNot(mkSelect(vis, k))))
+		qcounter++
+		q := atom(fmt.Sprintf("mk!%d", qcounter), c.sortOf(mt.Key()))
+		all := app(fmt.Sprintf("forall ((%s %s))", q.op, q.sort), "Bool", mkImp(mkSelect(hasNow, q), mkSelect(vis, q)))
+		m.st.assume(mkImp(mkAnd(mkNot(ok), mkEq(hasNow, has0)), all))
+		m.st.heaps["rangevis:"+id] = c.name(m.st, "rangevis", mkIte(ok, mkStore(vis, k, tTrue), vis))
+	}
 	fr.env[in] = Val{tup: []Val{{t: ok, typ: types.Typ[types.Bool]}, {t: k, typ: mt.Key()}, {t: val, typ: mt.Elem()}}}
 }
+
+// mapRangeOfLoop finds the map Range whose Next sits in the loop's header block
+func mapRangeOfLoop(li *loopInfo) *ssa.Range {
+	if li == nil {
+		return nil
+	}
+	for _, in := range li.header.Instrs {
+		if n, ok := in.(*ssa.Next); ok && !n.IsString {
+			if r, ok := n.Iter.(*ssa.Range); ok {
+				return r
+			}
+		}
+	}
+	return nil
+}
+
+// havocRangeGhosts: at a loop cut the set of keys produced so far by every map iteration advanced in the loop is unknown
+func (x *executor) havocRangeGhosts(st *state, li *loopInfo) {
+	for b := range li.blocks {
+		for _, in := range b.Instrs {
+			n, ok := in.(*ssa.Next)
+			if !ok || n.IsString {
+				continue
+			}
+			r, ok := n.Iter.(*ssa.Range)
+			if !ok {
+				continue
+			}
+			key := "rangevis:" + rangeID(r)
+			if old, found := st.heaps[key]; found {
+				st.heaps[key] = x.c.d.fresh("rangevis", old.sort)
+			}
+		}
+	}
+}
+
 func (x *executor) mapLen(st *state, v Val) *T                      { panic(unsupported("len(map)")) }
 
 // mapLookupVal: m[k] in a contract (zero value where absent)
